@@ -45,6 +45,11 @@ fn supervise(id: &str, tier: &str) -> i32 {
                 }
                 match st.code() {
                     Some(c @ (0 | 1 | 2)) => break c,
+                    Some(101) => {
+                        // a panic outside the guarded subject call = a bug of this harness, not a verdict
+                        eprintln!("MACHINERY: the worker panicked outside the code under test (see its message above)");
+                        break 2;
+                    }
                     Some(c) => {
                         let cr = engine::crumb::read_all(&crumbs);
                         break report(&format!("abnormal-exit-{c}"), cr);
